@@ -266,7 +266,11 @@ def run(ctx):
         files = [e for e in entries if e['kind'] == 'file' and e.get('npath')]
         if len(files) >= 2:
             for cmd, answers in (('x', b'y\nn\ny\nn\n' * 6), ('x', b'n\n' * 20), ('x', b'a\n'), ('x', b's\n'), ('x', b'q\n\nzz\ny\n' + b'y\n' * 20), ('xf', b''), ('xq', b''),
-                                 ('x', b'Y\nN\nA\n'), ('x', b'n\ns\n')):
+                                 ('x', b'Y\nN\nA\n'), ('x', b'n\ns\n'),
+                                 # every quiet level implies 'f' (also level 0), whatever the order of the option letters and
+                                 # whatever waits on standard input
+                                 ('xq0', b''), ('xq1', b'n\n' * 9), ('xq2', b''), ('eq0', b'n\n' * 9), ('xq0v', b''), ('xvq0', b's\n'),
+                                 ('xq0f', b''), ('ef', b'n\n' * 9), ('xfq1', b'')):
                 if ctx.tier == 'quick' and rnd.random() < 0.6:
                     continue
                 pre = {}
